@@ -495,6 +495,15 @@ pub fn gen_hash_project(rng: &mut Rng, k: u64) -> Project {
             );
         }
     }
+    // one project in twelve has two files whose names differ by letter case only, and imports neither by its exact
+    // name (a project that came from a case-insensitive file system): whatever picks "the" file must not pick by
+    // the order in which a directory happens to list its entries
+    if rng.chance(1, 12) {
+        p.label.push_str("+case_twins");
+        p.files.insert("palette.asm".into(), b"pal_set:\n    lda #1\n    sta $d020\n    rts\n".to_vec());
+        p.files.insert("Palette.asm".into(), b"pal_set:\n    lda #2\n    sta $d020\n    rts\n".to_vec());
+        main.push_str(".import pal_set from \"PALETTE.asm\"\n");
+    }
     // one project in three keeps its libraries in directories of their own under ONE file name
     // (gfx/util.asm, sound/util.asm ...): everything that is keyed or named by file stem collides
     if rng.chance(1, 3) {
